@@ -191,7 +191,17 @@ def _run_hb(case, stats, text, checker):
             ids = [aid[i] for i in sorted(aid) if (step[1] >> i) & 1]
             alive = [i for i in sorted(aid) if (step[1] >> i) & 1]
             if ids:
-                sim.call(cl.process_action_heartbeats, ids + ['no-such-id'])
+                # a report may also name executions that are gone (or an
+                # empty id), anywhere in the list: the others still count
+                junk = ['no-such-id', ''][step[1] % 2]
+                where = (step[1] // 2) % 3
+                if where == 0:
+                    rep = [junk] + ids
+                elif where == 1:
+                    rep = ids[:1] + [junk] + ids[1:]
+                else:
+                    rep = ids + [junk]
+                sim.call(cl.process_action_heartbeats, rep)
                 drain()
                 for i in alive:
                     model_last[i] = sim.now()
